@@ -1282,6 +1282,13 @@ class Converter:
         vars_def_in_loop = self.analyzer.assigned_vars(loop_stmt.body)
         live_out = self.analyzer.live_out(loop_stmt)
         assert live_out is not None, "live_out cannot be None here."
+        if isinstance(loop_stmt, ast.For) and python_loop_var_name in live_out:
+            # The loop variable is not an output of the Loop node: a later use would see
+            # whatever the name was bound to before the loop.
+            self._fail(
+                loop_stmt,
+                f"Loop variable {python_loop_var_name!r} is used after the loop: not supported.",
+            )
         # Sorted: the iteration order of a set of strings depends on PYTHONHASHSEED
         loop_state_vars = sorted(vars_def_in_loop.intersection(exposed_uses | live_out))
         scan_outputs: list[str] = []  # TODO
